@@ -20,5 +20,4 @@ print(collections.Counter((v['kind'], v.get('label'), v.get('cls')) for v in run
 for v in run.violations[:int(os.environ.get('NV','6'))]:
     v = {k: x for k, x in v.items() if k != "doc"}
     print(json.dumps(v, default=str, ensure_ascii=False)[:1500]); print("---")
-json.dump({"violations": run.violations}, open("/tmp/c17_dev_violations.json", "w"), default=str)
 print("evals", run.evals, "corr", run.corr, run.extra, run.hist)
